@@ -340,6 +340,17 @@ def table_case(ctx, rng, idx):
     m.set_administration('central', direct=bool(rng.integers(2)))
     t_ref = float(rng.uniform(1.0, 6.0))
     kind, kw, ev_all = gen_regimen(rng, t_ref)
+    # schedules typed in decimal (every 0.1 h, every 0.2 h, ...): start +
+    # n * period lands exactly on a final time, although the floating-point
+    # quotient (final - start) / period falls just below n
+    decimal = kind == 'indefinite' and rng.random() < 0.35
+    if decimal:
+        kw['start'] = float(rng.choice([0.0, 0.5, 0.3]))
+        kw['period'] = float(rng.choice([0.1, 0.2, 0.3, 0.7, 1.1]))
+        kw['duration'] = 0.01
+        ev_all = R.events(kw['dose'], kw['start'], kw['duration'],
+                          kw['period'], None, t_ref + 10 * kw['period'])
+        ctx.count('decimal_schedules')
     wrapper = ['predictive', 'population', 'prior', 'pam'][idx % 4]
     pm = chi.PredictiveModel(m, [chi.GaussianErrorModel()])
     candidates = [pm]
@@ -374,7 +385,10 @@ def table_case(ctx, rng, idx):
                     kw['start'] - 0.01 if kw['start'] > 0.02 else 0.3 *
                     kw['period'], 7.3 * kw['period']]
     final = choices[int(rng.integers(len(choices)))]
-    feats = {'regimen': kind, 'final_time': final, 'wrapper': wrapper}
+    if decimal:
+        final = kw['start'] + int(rng.integers(1, 16)) * kw['period']
+    feats = {'regimen': kind, 'final_time': final, 'wrapper': wrapper,
+             'decimal_schedule': bool(decimal)}
     ctx.case(('table', kind, wrapper,
               'none' if final is None else
               ('zero' if final == 0 else 'positive')), True,
